@@ -3,6 +3,7 @@ package main
 import (
 	"fmt"
 	"math/rand"
+	"strings"
 
 	"verif/harness/internal/smf"
 
@@ -34,6 +35,9 @@ type Inst struct {
 	Txt   string
 	Lic   string
 	Mrk   string
+	// Pad spells the numerals of this instance's values, meter and bpm with that many leading zeros in the YAML (the same
+	// numbers: decimal numerals do not change value with leading zeros); Pad < 0 writes the bpm as a quoted string
+	Pad int `json:",omitempty"`
 }
 
 type Doc []Inst
@@ -86,16 +90,31 @@ func (d Doc) YAML() []byte {
 			}
 			m["chord"] = ch
 		}
+		z := ""
+		if in.Pad > 0 {
+			z = strings.Repeat("0", in.Pad)
+		}
 		vs := []string{}
 		for _, v := range in.Vals {
-			vs = append(vs, v.String())
+			if z != "" {
+				vs = append(vs, z+strings.Replace(v.String(), "/", "/"+z, 1))
+			} else {
+				vs = append(vs, v.String())
+			}
 		}
 		m["values"] = vs
 		if in.BPM != 0 {
-			m["bpm"] = in.BPM
+			switch {
+			case in.Pad > 0:
+				m["bpm"] = &yaml.Node{Kind: yaml.ScalarNode, Tag: "!!int", Value: z + fmt.Sprint(in.BPM)}
+			case in.Pad < 0:
+				m["bpm"] = fmt.Sprint(in.BPM)
+			default:
+				m["bpm"] = in.BPM
+			}
 		}
 		if in.Meter != nil {
-			m["meter"] = fmt.Sprintf("%d/%d", in.Meter.N, in.Meter.D)
+			m["meter"] = fmt.Sprintf("%s%d/%s%d", z, in.Meter.N, z, in.Meter.D)
 		}
 		if in.Vel != "" {
 			m["velocity"] = in.Vel
@@ -273,6 +292,12 @@ func randomDoc(rng *rand.Rand, o GenOpt) Doc {
 			if rng.Float64() < o.TextP/2 {
 				in.Mrk = o.Texts[rng.Intn(len(o.Texts))]
 			}
+		}
+		switch rng.Intn(16) { // the same numbers spelled with leading zeros / the bpm as a quoted string
+		case 0, 1:
+			in.Pad = 1 + rng.Intn(3)
+		case 2:
+			in.Pad = -1
 		}
 		d = append(d, in)
 	}
